@@ -67,6 +67,7 @@ def run(tier, seed):
            "trace_events": nev, "explained_by_model": st["explained"], "not_explained": st["unexplained"],
            "exhaustive": True}
     cov.update(clientlib.fixture_traces(v, PID, FIELDS, "c02-fx"))
+    cov.update(clientlib.suite_traces(v, PID, FIELDS, "c02-suite"))
     return v.finish("model_checking", cov, [
         "TLC; signature validity abstracted as signer sets; key 13 is an RSA key and 12/14 ECDSA keys in the harness so that hops change algorithm",
         "the chain is explored up to MaxRootV published versions (3 quick / 4 thorough in the check configuration)"])
